@@ -574,6 +574,45 @@ def enc1(ctx, c):
                     c.ok("%s.translate:pcr-test" % cls, "PCR is looked for in the register half", ctx.repo.loc(fn, x))
 
 
+    # ... and the index register by the register half as well: a register letter looked for in text that contains the offset (a symbol of the programmer's choosing)
+    # makes the post byte depend on how the symbol is spelled
+    for cls in ("IndexedOperand", "ExtendedIndexedOperand"):
+        fn = ctx.repo.method(cls, "translate", inherited=False)
+        fnf = _fl_enc(ctx.repo, fn)
+        regs = {"X", "Y", "U", "S"}
+        bad = None
+        n_tests = 0
+        for x in ast.walk(fnf):
+            if isinstance(x, ast.Compare) and len(x.ops) == 1 and isinstance(x.ops[0], (ast.In, ast.NotIn)):
+                lits = set()
+                if isinstance(x.left, ast.Constant) and isinstance(x.left.value, str):
+                    lits = {x.left.value}
+                elif isinstance(x.left, ast.Name):
+                    # a loop variable over a literal table of registers
+                    for lp in ast.walk(fnf):
+                        if isinstance(lp, ast.For) and x in list(ast.walk(lp)) and any(isinstance(t_, ast.Name) and t_.id == x.left.id for t_ in ast.walk(lp.target)):
+                            lits = {e_.value for e_ in ast.walk(lp.iter) if isinstance(e_, ast.Constant) and isinstance(e_.value, str)}
+                if lits & regs and lits <= regs | {"PCR", "PC"}:
+                    n_tests += 1
+                    hay = U(x.comparators[0])
+                    if re.search(r"operand_string|self\.left|self\.value", hay) and bad is None:
+                        bad = x
+        if bad is not None:
+            c.finding("%s.translate:register-source" % cls, "the index register is looked for in `%s`" % U(bad.comparators[0])[:40],
+                      "%s.translate tests `%s`: that text contains the offset, so a symbol whose name has a Y, U or S in it (SCORE,X) sets register bits of its own and the post byte "
+                      "changes when a symbol is renamed" % (cls, U(bad)[:60]), ctx.repo.loc(fn, fn.node))
+        elif n_tests:
+            c.ok("%s.translate:register-source" % cls, "register letters are looked for in the register half only", ctx.repo.loc(fn, fn.node))
+
+
+def _fl_enc(repo, fn):
+    from ..inline import flatten
+    try:
+        return flatten(repo, fn, depth=2)
+    except Exception:
+        return fn.node
+
+
 def enc2(ctx, c):
     _run(ctx, c, "ENC-2")
 
